@@ -498,6 +498,16 @@ fn run_cmd(cmd: &Cmd, plan: Option<Plan>, dec: Dec, record: bool, slot: u64) -> 
                             viol = mism("stdio", format!("stream {i} configured {:?}: program's descriptor is {:?}, expected {:?}", cmd.io[i], d.fds[i], exp));
                             break;
                         }
+                        // both ends of a pipe are one inode: the direction tells them apart
+                        if matches!(cmd.io[i], Io::Null | Io::Pipe) {
+                            let want_acc = u64::from(i != 0);
+                            if let Some((_, _, acc)) = d.fds[i] {
+                                if (acc & 3) as u64 != want_acc {
+                                    viol = mism("stdio-direction", format!("stream {i} configured {:?}: the program's descriptor has access mode {acc}, expected {want_acc} (0 read, 1 write)", cmd.io[i]));
+                                    break;
+                                }
+                            }
+                        }
                     }
                 }
                 if viol.is_none() && *status != Some(cmd.exit << 8) {
@@ -505,6 +515,15 @@ fn run_cmd(cmd: &Cmd, plan: Option<Plan>, dec: Dec, record: bool, slot: u64) -> 
                 }
             }
             (None, _) => {}
+        }
+    }
+    let before_exec_failed = (plan.is_none() || plan.is_some_and(|p| p.side == Side::Child)) && expect_err.is_some();
+    if viol.is_none() && !unjudged && before_exec_failed && matches!(result, Some(Err(_))) {
+        // a step before exec (or exec itself) failed in the child: then the program was never
+        // executed (a parent-side failure after fork says nothing about that)
+        let len = std::fs::metadata(format!("{dir}/dump")).map(|m| m.len()).unwrap_or(0);
+        if len > 0 {
+            viol = Some(Violation { sig: format!("program-ran-although-error|{label}"), detail: format!("spawn returned an error ({label}) but the requested program ran (it wrote {len} bytes of dump)") });
         }
     }
     if viol.is_none() && killed_or_alive > 0 && matches!(result, Some(Err(_))) {
